@@ -181,12 +181,16 @@ def gen_cases(rng, s, n, kinds=("query",), adversarial=0.08, fail=0.08):
     return cases
 
 
+MAX_CALLS_PER_CASE = 120
+
+
 def explore(tier_, seed, prop, kinds=("query",), adversarial=0.08, fail=0.08, with_mutation=False,
             evals=IMPL_EVAL, extra_imports="", n_override=None, expand=None):
     """Generate, run, evaluate.  Returns list of dicts (schema, case, ast, run, labels...)."""
     from . import engine_env
     engine_env.setup()
     rng = random.Random(seed * 65537 + zlib_crc(prop))
+    explore.dropped_heavy = 0
     n_schemas, n_cases = n_override or ((5, 60) if tier_ == "quick" else (40, 150))
     files, meta = [], []
     results, names = [], []
@@ -224,6 +228,11 @@ def explore(tier_, seed, prop, kinds=("query",), adversarial=0.08, fail=0.08, wi
             cases = expand(rng, s, cases, cfg)
         asts = [gen.parse_query(c["query"]) for c in cases]
         runs = asyncio.run(run_cases(s, cases, fresh_schema_name(prop.lower()), cfg))
+        # a request with hundreds of resolver invocations over deeply nested values makes a case term of ~1 MB, a case
+        # file of tens of MB and a coqc of ~10 GB: such requests are left out (counted), the rest is evaluated
+        keep = [i for i, r in enumerate(runs) if len(r["calls"]) + len(r["tr_calls"]) <= MAX_CALLS_PER_CASE]
+        explore.dropped_heavy = getattr(explore, "dropped_heavy", 0) + len(runs) - len(keep)
+        cases, asts, runs = [cases[i] for i in keep], [asts[i] for i in keep], [runs[i] for i in keep]
         step = 30
         for j in range(0, len(cases), step):
             files.append(("%s_s%d_%s_%d" % (prop, seed, ("h" if si < 0 else str(si)), j),
@@ -345,6 +354,7 @@ def run_property(pid, tier_, bits, explore_kwargs, property_files, extra_python_
         "theorems": [n for n in names if n.startswith(pid + "_")],
         "evaluations": total, "distinct_nontrivial": len(distinct_nt), "rule": rule,
         "traces_validated_against_impl": total,
+        "requests_left_out_as_too_heavy": getattr(explore, "dropped_heavy", 0),
         "impl_model_mismatches": len(impl_mm), "property_violations": len(viol),
         "samples": [{"query": c["query"], "variables": c["variables"], "faults": c.get("faults")}
                     for c in (meta[0][1][:3] if meta else [])],
